@@ -1303,6 +1303,7 @@ handle_null_request(int tun_fd, int dns_fd, struct dnsfd *dns_fds, struct query 
 			|| (in[0] >= 'A' && in[0] <= 'F')) {
 		int up_seq, up_frag, dn_seq, dn_frag, lastfrag;
 		int upstream_ok = 1;
+		int unpacked_done = 0;
 		int didsend = 0;
 		int code = -1;
 
@@ -1409,6 +1410,9 @@ handle_null_request(int tun_fd, int dns_fd, struct dnsfd *dns_fds, struct query 
 			}
 			users[userid].inpacket.len = 0;
 			users[userid].inpacket.offset = 0;
+			/* unpack_data() removed the dots of in[] in place;
+			   'unpacked' holds this fragment already */
+			unpacked_done = 1;
 		}
 		else if (up_seq == users[userid].inpacket.seqno &&
 			up_frag <= users[userid].inpacket.fragment) {
@@ -1482,8 +1486,9 @@ handle_null_request(int tun_fd, int dns_fd, struct dnsfd *dns_fds, struct query 
 
 		if (upstream_ok) {
 			/* decode with this user's encoding */
-			read = unpack_data(unpacked, sizeof(unpacked), &(in[5]), domain_len - 5,
-					   users[userid].encoder);
+			if (!unpacked_done)
+				read = unpack_data(unpacked, sizeof(unpacked), &(in[5]), domain_len - 5,
+						   users[userid].encoder);
 
 			/* copy to packet buffer, update length */
 			read = MIN(read, sizeof(users[userid].inpacket.data) - users[userid].inpacket.offset);
